@@ -24,7 +24,7 @@ class NewBase(BaseException):
         self.label = label
 
 
-KINDS = ("acm", "scm", "push-async-fn", "push-sync-fn", "callback-sync", "callback-async", "push-acm", "push-scm")
+KINDS = ("acm", "scm", "push-async-fn", "push-sync-fn", "callback-sync", "callback-async", "push-acm", "push-scm", "push-async-obj", "push-async-partial", "callback-async-obj")
 BEHS = ("falsy", "truthy", "raise-new", "raise-new-if-exception", "raise-new-BaseException")
 NK, NB = len(KINDS), len(BEHS)
 
@@ -116,6 +116,40 @@ class Entry:
 
         return sexit
 
+    def aobj(self):
+        e = self
+
+        class ExitObj:  # not a coroutine function: its call returns a coroutine
+            def __call__(self, et, ev, tb):
+                async def run():
+                    return e._exit(ev)
+
+                return run()
+
+        return ExitObj()
+
+    def apartial(self):
+        import functools
+
+        e = self
+
+        async def aexit(_x, et, ev, tb):
+            return e._exit(ev)
+
+        return functools.partial(aexit, None)
+
+    def acbobj(self):
+        e = self
+
+        class CbObj:
+            def __call__(self, *a, **k):
+                async def run():
+                    return e._cb(*a, **k)
+
+                return run()
+
+        return CbObj()
+
     def scb(self):
         return self._cb
 
@@ -145,7 +179,13 @@ async def reg_async(stack, e):
         return stack.callback(e.acb(), "arg", kw=1)
     if k == 6:
         return stack.push(e.acm())
-    return stack.push(e.scm())
+    if k == 7:
+        return stack.push(e.scm())
+    if k == 8:
+        return stack.push(e.aobj())
+    if k == 9:
+        return stack.push(e.apartial())
+    return stack.callback(e.acbobj(), "arg", kw=1)
 
 
 async def reg_std(stack, e):
@@ -165,7 +205,13 @@ async def reg_std(stack, e):
         return stack.push_async_callback(e.acb(), "arg", kw=1)
     if k == 6:
         return stack.push_async_exit(e.acm())
-    return stack.push(e.scm())
+    if k == 7:
+        return stack.push(e.scm())
+    if k == 8:
+        return stack.push_async_exit(e.aobj())
+    if k == 9:
+        return stack.push_async_exit(e.apartial())
+    return stack.push_async_callback(e.acbobj(), "arg", kw=1)
 
 
 class _AsCM:
@@ -190,7 +236,7 @@ class _AsCM:
             return await self.inner.__aexit__(et, ev, tb)
         if k in (1, 7):
             return self.inner.__exit__(et, ev, tb)
-        if k in (2, 3):
+        if k in (2, 3, 8, 9):
             return self.e._exit(ev)
         self.e._cb("arg", kw=1)
         return False
@@ -433,7 +479,7 @@ def jobs(tier):
 
 LEVEL = "other"
 BOUNDS = {
-    "quick": "stacks of 0..2 entries, each {entered async CM, entered sync CM, pushed async fn, pushed sync fn, sync callback with args, async callback with args, pushed (not entered) async CM, pushed sync CM} x {falsy, truthy, raise new, raise new only when an exception is in flight, raise a new BaseException}, block normal/raising, one entry whose enter fails; oracles: contextlib.AsyncExitStack and recursively built nested async-with; histories of 4 operations over {register, aclose, pop_all, with-block, with-block raising, aclose popped stack} followed by closing everything",
+    "quick": "stacks of 0..2 entries, each {entered async CM, entered sync CM, pushed async fn, pushed sync fn, sync callback with args, async callback with args, pushed (not entered) async CM, pushed sync CM, pushed callable object returning a coroutine, pushed partial(async def), callback object returning a coroutine} x {falsy, truthy, raise new, raise new only when an exception is in flight, raise a new BaseException}, block normal/raising, one entry whose enter fails; oracles: contextlib.AsyncExitStack and recursively built nested async-with; histories of 4 operations over {register, aclose, pop_all, with-block, with-block raising, aclose popped stack} followed by closing everything",
     "thorough": "stacks of 3 entries, histories of 6 operations",
 }
 OUTSIDE = ["__context__/__cause__ chains", "4 entries", "exits that suspend (covered by C17/C18)"]
